@@ -545,6 +545,9 @@ class Enc:
 # --------------------------------------------------------------------------------------- translator
 
 
+_IMPL_INDEX = {}
+
+
 class Translator:
     def __init__(self, fns, enc, src_root="/repo", inline_depth=4, stubs=None):
         self.stubs = stubs or []
@@ -1075,14 +1078,19 @@ class Translator:
 
     # ---- crate-local resolution
     def impl_index(self):
+        if self._impl_index is None and id(self.fns) in _IMPL_INDEX:
+            self._impl_index = _IMPL_INDEX[id(self.fns)]
         if self._impl_index is None:
             idx = {}
+            srcs = {}
             for name, f in self.fns.items():
                 m = re.match(r"(?:[\w:]+::)?<impl at ([^:]+):(\d+):\d+: \d+:\d+>::(\w+)$", name)
                 if m:
                     path = os.path.join(self.src_root, m.group(1))
                     try:
-                        line = open(path).read().split("\n")[int(m.group(2)) - 1]
+                        if path not in srcs:
+                            srcs[path] = open(path).read().split("\n")
+                        line = srcs[path][int(m.group(2)) - 1]
                     except Exception:
                         continue
                     mi = re.match(r"\s*impl(?:<.*?>)?\s+(?:([\w:<>, ]+?)\s+for\s+)?([\w:<>, ]+?)\s*(?:\{|where|$)", line)
@@ -1091,6 +1099,7 @@ class Translator:
                         ty = mi.group(2).strip()
                         idx[(trait, ty, m.group(3))] = name
             self._impl_index = idx
+            _IMPL_INDEX[id(self.fns)] = idx
         return self._impl_index
 
     def resolve_local(self, c, fn):
